@@ -29,6 +29,11 @@ type DispatchCase struct {
 	Dir    int    `json:"dir"`
 	Enc    string `json:"enc"`
 	Expect string `json:"expect"`
+	// objsrc cases
+	Carrier string `json:"carrier"`
+	Field   int    `json:"field"`
+	Attr    int    `json:"attr"`
+	Content int    `json:"content"`
 }
 
 func bigOf(n int64) *big.Int { return big.NewInt(n) }
@@ -330,6 +335,96 @@ func TestDispatch(t *testing.T) {
 				}
 				if pl.Object.ObjectType() != ot {
 					probs = append(probs, fmt.Sprintf("object-reports-type:0x%08X", uint32(pl.Object.ObjectType())))
+				}
+			case "objsrc":
+				// the object actually present
+				cw, ok := objectTable[kmip.ObjectType(uint32(c.Content))]
+				if !ok {
+					probs = append(probs, "drift:content-type-not-in-the-harness-table")
+					continue
+				}
+				ov := build(reflect.TypeOf(cw).Elem(), minimal, i, 3)
+				op := reflect.New(reflect.TypeOf(cw).Elem())
+				op.Elem().Set(ov)
+				objItem, err := libItem(nameToTag[reflect.TypeOf(cw).Elem().Name()], op.Interface())
+				if err != nil {
+					probs = append(probs, "harness:cannot-build-object:"+err.Error())
+					continue
+				}
+				var attrs []*refwire.Item
+				if c.Attr != 0 {
+					attrs = append(attrs, structItem(kmip.TagAttribute, textItem(kmip.TagAttributeName, "Object Type"), enumItem(kmip.TagAttributeValue, uint32(c.Attr))))
+				}
+				attrs = append(attrs, structItem(kmip.TagAttribute, textItem(kmip.TagAttributeName, "Cryptographic Length"), &refwire.Item{Tag: kmip.TagAttributeValue, Type: 2, Raw: u32(128)}))
+				dir, opc := 2, kmip.OperationGet
+				var kids []*refwire.Item
+				switch c.Carrier {
+				case "get-response":
+					kids = []*refwire.Item{enumItem(kmip.TagObjectType, uint32(c.Field)), textItem(kmip.TagUniqueIdentifier, "id"), objItem}
+				case "export-response":
+					opc = kmip.OperationExport
+					kids = append([]*refwire.Item{enumItem(kmip.TagObjectType, uint32(c.Field)), textItem(kmip.TagUniqueIdentifier, "id")}, attrs...)
+					kids = append(kids, objItem)
+				case "register-request":
+					dir, opc = 1, kmip.OperationRegister
+					kids = []*refwire.Item{enumItem(kmip.TagObjectType, uint32(c.Field)), structItem(kmip.TagTemplateAttribute, attrs...), objItem}
+				case "import-request":
+					dir, opc = 1, kmip.OperationImport
+					kids = append([]*refwire.Item{textItem(kmip.TagUniqueIdentifier, "id")}, attrs...)
+					kids = append(kids, objItem)
+				}
+				ptag := kmip.TagResponsePayload
+				bkids := []*refwire.Item{enumItem(kmip.TagOperation, uint32(opc))}
+				if dir == 1 {
+					ptag = kmip.TagRequestPayload
+				} else {
+					bkids = append(bkids, enumItem(kmip.TagResultStatus, 0))
+				}
+				bkids = append(bkids, structItem(ptag, kids...))
+				bin := message(dir, structItem(kmip.TagBatchItem, bkids...))
+				msg, _, err := viaEncoding(c.Enc, bin, dir)
+				if err != nil && strings.HasPrefix(err.Error(), "panic") {
+					probs = append(probs, "panic:"+err.Error())
+					continue
+				}
+				var got kmip.Object
+				var declared kmip.ObjectType
+				if err == nil {
+					var pl kmip.OperationPayload
+					if dir == 1 {
+						pl = msg.(*kmip.RequestMessage).BatchItem[0].RequestPayload
+					} else {
+						pl = msg.(*kmip.ResponseMessage).BatchItem[0].ResponsePayload
+					}
+					switch x := pl.(type) {
+					case *payloads.GetResponsePayload:
+						got, declared = x.Object, x.ObjectType
+					case *payloads.ExportResponsePayload:
+						got, declared = x.Object, x.ObjectType
+					case *payloads.RegisterRequestPayload:
+						got, declared = x.Object, x.ObjectType
+					case *payloads.ImportRequestPayload:
+						got, declared = x.Object, kmip.ObjectType(uint32(c.Attr))
+					default:
+						probs = append(probs, fmt.Sprintf("wrong-payload-type:%T", pl))
+						continue
+					}
+				}
+				if c.Expect == "error" {
+					if err == nil {
+						probs = append(probs, fmt.Sprintf("objsrc:accepted:%s:field=%d:attr=%d:content=%d:as:%T", c.Carrier, c.Field, c.Attr, c.Content, got))
+					}
+					continue
+				}
+				if err != nil {
+					probs = append(probs, fmt.Sprintf("objsrc:decode-error:%s:field=%d:attr=%d:content=%d:%v", c.Carrier, c.Field, c.Attr, c.Content, err))
+					continue
+				}
+				want := objectTable[kmip.ObjectType(uint32(c.Code))]
+				if got == nil || reflect.TypeOf(got) != reflect.TypeOf(want) {
+					probs = append(probs, fmt.Sprintf("objsrc:wrong-type:%s:field=%d:attr=%d:got=%T:want=%T", c.Carrier, c.Field, c.Attr, got, want))
+				} else if uint32(got.ObjectType()) != uint32(c.Code) || uint32(declared) != uint32(c.Code) {
+					probs = append(probs, fmt.Sprintf("objsrc:type-fields-disagree:%s:object=%d:declared=%d:governing=%d", c.Carrier, uint32(got.ObjectType()), uint32(declared), c.Code))
 				}
 			case "attr":
 				name := c.Name
